@@ -35,7 +35,7 @@ use parser::Parser;
 use pattern::Pattern;
 use quote::ToTokens;
 
-use proc_macro2::{TokenStream, TokenTree};
+use proc_macro2::TokenStream;
 use quote::quote;
 use syn::spanned::Spanned;
 use syn::{parse_quote, LitBool};
@@ -460,18 +460,21 @@ pub fn strip_attributes(input: TokenStream) -> TokenStream {
     for attr in &mut item.attrs {
         if let syn::Meta::List(meta) = &mut attr.meta {
             if meta.path.is_ident("derive") {
-                let mut tokens =
-                    std::mem::replace(&mut meta.tokens, TokenStream::new()).into_iter();
+                // Derives may be paths (`serde::Serialize`, `::core::fmt::Debug`, `logos::Logos`):
+                // keep every one of them except the `Logos` derive itself.
+                let derives = meta.parse_args_with(
+                    syn::punctuated::Punctuated::<syn::Path, syn::Token![,]>::parse_terminated,
+                );
 
-                while let Some(TokenTree::Ident(ident)) = tokens.next() {
-                    let punct = tokens.next();
+                if let Ok(derives) = derives {
+                    let kept = derives.into_iter().filter(|path| {
+                        !path
+                            .segments
+                            .last()
+                            .is_some_and(|segment| segment.ident == "Logos")
+                    });
 
-                    if ident == "Logos" {
-                        continue;
-                    }
-
-                    meta.tokens.extend([TokenTree::Ident(ident)]);
-                    meta.tokens.extend(punct);
+                    meta.tokens = quote!(#(#kept),*);
                 }
             }
         }
